@@ -165,6 +165,10 @@ def r_check_before_insert(c):
                 if isinstance(n, ast.Call) and ast.unparse(n.func) == f"{tbl}.add" \
                         and n.args and ast.unparse(n.args[0]) == key:
                     return "INSERT"
+                if isinstance(n, ast.Call) and isinstance(n.func, ast.Attribute) \
+                        and isinstance(n.func.value, ast.Name) and n.func.value.id == "self" \
+                        and n.func.attr.startswith("rec"):
+                    return "REC"
                 return None
             ps = P.walk(fd, cl)
             has_ins = any("INSERT" in e for e, _x in ps)
@@ -184,6 +188,28 @@ def r_check_before_insert(c):
                     f"the table {tbl} tested for duplicates is not filled under the same "
                     "key right after the test on every path: a duplicate would silently "
                     "overwrite the first entry or the test never sees earlier entries")
+            # the test-then-insert window is not re-entrant: a recursion into
+            # children between the test and the insertion can reach the same
+            # handler with an equal key, pass the (still negative) test and
+            # insert; the outer insertion then overwrites it silently
+            window = []
+            for e, _x in ps:
+                open_ = False
+                for lab in e:
+                    if lab == "TEST":
+                        open_ = True
+                    elif lab == "INSERT":
+                        open_ = False
+                    elif lab == "REC" and open_:
+                        window.append(e)
+                        break
+            c.check(not window, "R10-CHECK-BEFORE-INSERT", name,
+                    f"{tbl}[{key}]:no-recursion-between-test-and-insert",
+                    m.loc(m.module_of(fd), iff),
+                    f"between the duplicate test on {tbl} and the insertion under the "
+                    "same key the handler recurses into its children: a node with an "
+                    "equal identifier nested below passes the test, is inserted and "
+                    "then silently overwritten (no Duplicate*Error)")
     # missing send / missing receive
     v = m.func(D + "verify.verify_distributed_partition")
     ms = find(v, """
